@@ -111,7 +111,7 @@ FAMILIES["stream"] = {
     "harness": COMMON + ["zz_vf_wire_test.go", "zz_vf_stream_test.go"], "test": "TestVfStream",
     "n": {"quick": 5, "thorough": 120}, "no_shrink": True,
     "env": {"VF_SHARD": "600"},
-    "codes": [(300, 300, ["C09"]), (301, 301, ["C12"]), (302, 305, ["C13"]), (306, 306, ["C14"]), (307, 307, ["C16"]),
+    "codes": [(300, 300, ["C09"]), (301, 301, ["C12"]), (302, 305, ["C13"]), (306, 306, ["C14"]), (307, 308, ["C16"]),
               (310, 329, ["C09"]), (330, 339, ["C15"])],
     "code_names": {1: "undecodable case", 60: "stream acted on although the framing layer yields no message", 61: "verifyProtocol result differs from the model",
                    62: "bytes written to the stream differ from the model's framing", 63: "panic outcome differs",
@@ -120,6 +120,7 @@ FAMILIES["stream"] = {
                    302: "C13: stream handler panicked", 303: "C13: undecodable stream changed membership", 304: "C13: connection left open",
                    305: "C13: declared size beyond the cap was not refused before reading the data",
                    306: "C14: tampered / foreign-key / removed-key stream had an effect", 307: "C16: stream carrying another label had an effect or got a reply",
+                   308: "C16: a correctly labelled stream was not accepted (label header fragmented across reads)",
                    310: "C09: Join reported success but joiner and host do not list each other (and the host's members)",
                    311: "C09: host-side veto / incompatibility: Join succeeded one-sidedly (host replied before verifying and merging)",
                    312: "C09: failed Join changed the joiner's membership",
